@@ -1,0 +1,22 @@
+//go:build verif
+
+package field
+
+// Hooks for the verification harness (build tag verif). Add-only; no behaviour change.
+
+// VerifLimbs returns the eight 56-bit limbs of v.
+func (v *Element) VerifLimbs() [8]uint64 {
+	return [8]uint64{v.l0, v.l1, v.l2, v.l3, v.l4, v.l5, v.l6, v.l7}
+}
+
+// VerifSetLimbs sets the limbs of v verbatim (no reduction).
+func (v *Element) VerifSetLimbs(l [8]uint64) *Element {
+	v.l0, v.l1, v.l2, v.l3, v.l4, v.l5, v.l6, v.l7 = l[0], l[1], l[2], l[3], l[4], l[5], l[6], l[7]
+	return v
+}
+
+// VerifReduce exposes reduce.
+func (v *Element) VerifReduce() *Element { return v.reduce() }
+
+// VerifCarryPropagate exposes carryPropagate.
+func (v *Element) VerifCarryPropagate() *Element { return v.carryPropagate() }
